@@ -203,12 +203,12 @@ def classify_ir(ir, style, emit_dd, kinds=("rest", "numpydoc", "google")):
     Returns the id of the first class the input belongs to, or None (= inside Dom_style).
     """
     entries = list(ir["params"]) + ([["return_type", ir["returns"]]] if ir["returns"] is not None else [])
-    for n, p in entries:
-        if "typ" not in p:
-            return "C01-untyped-entry"
-    for n, p in entries:
-        if "doc" not in p:
-            return "C01-entry-without-prose"
+    from ..astkinds import prose_less_breaks, untyped_breaks
+
+    if untyped_breaks(style, ir):
+        return "C01-untyped-entry"
+    if prose_less_breaks(style, ir):
+        return "C01-entry-without-prose"
     for n, p in entries:
         d = p.get("default")
         if d is not None and emit_dd:
